@@ -903,10 +903,30 @@ def reuse_ops(kind, T):
     ops = [["strike", k] for k in (20, 18, 16)]
     if kind in KINDS:
         ops += [["call"]] + [["clause", c] for c in ("double", "plus1", "knockout")]
+        ops += [["replace_first", "plus1"], ["replace_last", "double"]]
     if kind == "forward_start":
         ops += [["start", j] for j in sorted({0, T - 1, 1})]
     ops += [["maturity"], ["paths_new"], ["paths_inplace"]]
     return ops
+
+
+#: clause-only mutation alphabet: add a clause under a new name / re-register the first or the last existing
+#: name with another clause.  Re-registration keeps the clause's position (the registry is an ordered dict:
+#: assigning an existing key keeps its place - that is also what named_clauses() of /repo reports), so the
+#: payoff is the fold over the CURRENT named clauses in that order.  Disabled while no clause is registered.
+CLAUSE_OPS = ([["clause", c] for c in ("double", "plus1", "knockout")]
+              + [["replace_first", c] for c in ("plus1", "double")]
+              + [["replace_last", c] for c in ("knockout", "double")])
+
+
+def _history_enabled(hist):
+    n = 0
+    for op in hist:
+        if op[0] == "clause":
+            n += 1
+        elif op[0].startswith("replace") and n == 0:
+            return False
+    return True
 
 
 def _reuse_strike(kind, k16):
@@ -936,7 +956,8 @@ def reuse(ctx, block):
     site += ".payoff"
     histories = block.get("histories")
     if histories is None:
-        histories = list(all_histories(reuse_ops(kind, T), block["depth"]))
+        ops = CLAUSE_OPS if block.get("ops") == "clauses" else reuse_ops(kind, T)
+        histories = [h for h in all_histories(ops, block["depth"]) if _history_enabled(h)]
     cache = {}
 
     def expected(st):
@@ -993,6 +1014,10 @@ def reuse(ctx, block):
                 elif op[0] == "clause":
                     d.add_clause(f"c{len(st['clauses'])}", supply(op[1]))
                     st["clauses"] = st["clauses"] + [op[1]]
+                elif op[0] in ("replace_first", "replace_last"):
+                    j = 0 if op[0] == "replace_first" else len(st["clauses"]) - 1
+                    d.add_clause(f"c{j}", supply(op[1]))          # existing name: replaced in place
+                    st["clauses"] = st["clauses"][:j] + [op[1]] + st["clauses"][j + 1:]
                 elif op[0] == "paths_new":
                     st["paths"] = "B" if st["paths"] == "A" else "A"
                     market.set_buffers(stock, spot=tens[st["paths"]])
@@ -1003,6 +1028,13 @@ def reuse(ctx, block):
                 else:
                     raise KeyError(op)
                 ctx.add("transitions", 1)
+            names_now = [n for n, _ in d.named_clauses()]
+            if names_now != [f"c{j}" for j in range(len(st["clauses"]))]:
+                ctx.violation("BaseDerivative.named_clauses", "reuse:" + ">".join(o[0] for o in hist[:step]),
+                              f"named_clauses() = {names_now} after {hist[:step]}", observed=names_now,
+                              expected=[f"c{j}" for j in range(len(st["clauses"]))],
+                              block={"kind": kind, "dtype": block["dtype"], "paths16": [pathsA[0]],
+                                     "histories": [hist[:step]]})
             out = d.payoff()
             exp = expected(st)
             changed = 0 if prev is None else sum(1 for a, b in zip(exp, prev) if a[0] != b[0])
@@ -1059,9 +1091,9 @@ def run(ctx):
                "comparison / division) is bit-for-bit the IEEE double result torch float64 must return")
     ctx.assume("reuse histories: payoff() must reflect the current public attributes (strike, call, start), the "
                "registered clauses and the current content of the spot buffer; removing a clause has no public API "
-               "and is not enumerated")
-    ctx.assume("clauses are represented by the enumerated alphabet, not by all programs; re-registration under "
-               "an existing name is not enumerated")
+               "and is not enumerated; re-registering a clause under an existing name replaces it in place (ordered-dict "
+               "semantics, as named_clauses() of /repo reports)")
+    ctx.assume("clauses are represented by the enumerated alphabet, not by all programs")
     base = [12, 16, 20, 24]                       # 0.75, 1, 1.25, 1.5
     extra = ctx.extra_symbol("price", [8, 10, 14, 18, 22, 28, 32])
     A4 = base
@@ -1162,13 +1194,16 @@ def run(ctx):
     depth = ctx.pick(2, 3)
     ctx.info["reuse_history_depth"] = depth
     ctx.alphabet("reuse mutations", ["strike:=1.25|1.125|1", "toggle call", "start:=step 0|1|T-1", "maturity+=dt",
-                                     "add clause x2|+1|knock-out", "register other paths", "overwrite paths in place"])
+                                     "add clause x2|+1|knock-out", "re-register the first / last clause name", "register other paths", "overwrite paths in place"])
     rblocks = []
     for kind in REUSE_KINDS:
         for dtype in ("float64", "float32"):
             if dtype == "float32" and kind != "european":
                 continue
             rblocks.append({"kind": kind, "dtype": dtype, "T": 3, "A16": A4, "depth": depth})
+    # clause registry histories (add / replace-by-name) to depth 3 (thorough 4)
+    for kind in ("european", "american_binary"):
+        rblocks.append({"kind": kind, "dtype": "float64", "T": 3, "A16": A4, "depth": depth + 1, "ops": "clauses"})
     rblocks.append({"kind": "european", "dtype": "float64", "T": 1, "A16": A5, "depth": depth})
     rblocks.append({"kind": "lookback", "dtype": "float64", "T": 2, "A16": A5, "depth": depth})
     if ctx.thorough:
